@@ -403,6 +403,11 @@ func (st *c18State) doStep() {
 			// a long list (pool objects repeat in it): the receiver may be ANY element,
 			// also one far down the list, beyond wherever an implementation splits its work
 			l = gen.Pick(rng, 33, 64, 65, 66, 100, 128, 129, 130, 65+rng.Intn(80))
+			if rng.Chance(1, 4) {
+				// several hundred terms: where chunked / bucketed implementations split again
+				l = gen.Pick(rng, 256, 257, 258, 300, 511, 512, 513, 700, 1025)
+				w.Class("c18:alias:long-list>=256")
+			}
 			w.Class("c18:alias:long-list")
 		}
 		idxP, idxS := make([]int, l), make([]int, l)
@@ -420,7 +425,7 @@ func (st *c18State) doStep() {
 					idxP[k] = a // the receiver appears exactly where it is put below
 				}
 			}
-			at := gen.Pick(rng, l-1, 64, 65, l/2, 32+rng.Intn(l-32))
+			at := gen.Pick(rng, l-1, 64, 65, l/2, 32+rng.Intn(l-32), 256, 257, 512, l-2)
 			if at >= l {
 				at = l - 1
 			}
